@@ -1,0 +1,61 @@
+//go:build verif
+
+package dynamiccache
+
+import (
+	"time"
+
+	apimachinerymeta "k8s.io/apimachinery/pkg/api/meta"
+	"k8s.io/apimachinery/pkg/runtime"
+	"k8s.io/apimachinery/pkg/runtime/schema"
+	"k8s.io/client-go/dynamic"
+)
+
+// VerifInformerMap is the informer-map contract the Cache depends on.
+// Exported only under the verif build tag so that a verification harness
+// can script informer creation and deletion.
+type VerifInformerMap = informerMap
+
+// NewCacheWithInformerMap builds a Cache exactly like NewCache, but over a
+// caller-supplied informer map instead of one talking to a real API server.
+func NewCacheWithInformerMap(
+	scheme *runtime.Scheme,
+	im VerifInformerMap,
+	recorder metricsRecorder,
+	opts ...CacheOption,
+) *Cache {
+	c := &Cache{
+		scheme:             scheme,
+		informerReferences: map[schema.GroupVersionKind]map[OwnerReference]struct{}{},
+		cacheSource:        &cacheSource{},
+		recorder:           recorder,
+	}
+	for _, opt := range opts {
+		opt.ApplyToCacheOptions(&c.opts)
+	}
+	c.opts.Default()
+	c.informerMap = im
+	return c
+}
+
+// NewInformerMapWithDynamicClient builds the real InformerMap over an
+// injected dynamic client.
+func NewInformerMapWithDynamicClient(
+	dynamicClient dynamic.Interface,
+	scheme *runtime.Scheme,
+	mapper apimachinerymeta.RESTMapper,
+	resync time.Duration,
+	selectors SelectorsByGVK,
+	indexers FieldIndexersByGVK,
+) *InformerMap {
+	return &InformerMap{
+		scheme:    scheme,
+		mapper:    mapper,
+		resync:    resync,
+		selectors: selectors.forGVK,
+		indexers:  indexers.forGVK,
+
+		informers:     map[schema.GroupVersionKind]mapEntry{},
+		dynamicClient: dynamicClient,
+	}
+}
